@@ -148,6 +148,15 @@ CLAIMS = {
              'on a plain and an instrumented server gives identical packets, handler calls, callback firings and rooms to '
              'application clients, admin connected or not.',
         ref='5 C18', technique='symbolic execution (CrossHair+z3) of the real admin code; differential instrumented vs plain server'),
+    'C07': dict(
+        text='Differential check driven by the solver: two (thorough: three) real servers with real PubSubManager / '
+             'AsyncPubSubManager subclasses over one FIFO channel of pickled messages (each host consuming through its '
+             'real listener loop) against one real server with the in-memory manager holding all clients; every '
+             'placement of 3 clients, every pair of operations from the stated alphabet (emits via either host or a '
+             'write-only process, with callbacks, room operations incl. session-id-named rooms, disconnects, client ACKs) '
+             'with immediate consumption must give identical per-client deliveries and callback invocations; delayed '
+             'consumption is checked for at-most-once. The plan is the symbolic input (solver-enumerated).',
+        ref='5 C07', technique='solver-driven enumeration (CrossHair+z3) of cluster histories; differential vs a real single server'),
 }
 
 PENDING = 'check not built yet in this tree (work in progress); no claim is made'
